@@ -4,6 +4,11 @@
 //! the full API, the stub API + `finish_bulk_load`, compaction, committed transactions so
 //! multi-version nodes exist, hierarchy index declarations); it is exported through a
 //! `SimWriter` and the bytes are imported into an empty store through a `SimReader`.
+//! Size classes: most histories are small (<= ~35 relationships); one run in eight starts
+//! with bulk events (`kit::snapgraph::gen_bulk`) that create more than 64 / 128 / 192
+//! relationships (optionally more than 64 nodes) and delete some of the relationships again,
+//! so ids cross 64-id boundaries and the surviving ids have gaps (probes `rel_ids_over_*`,
+//! `rel_ids_over_64_with_gaps`, `node_ids_over_64`).
 //! Three stream configurations, counted separately (probes `cfg_*`):
 //!   clean    — whole-buffer I/O; strict isomorphism + same hierarchy declarations;
 //!   unusual  — short reads/writes (down to 1 byte) and `Interrupted`; same strict oracle;
@@ -110,7 +115,7 @@ impl Scenario for C12 {
         }
     }
     fn rule(&self) -> &'static str {
-        "history = PRNG-generated sequence (<=30 ops) of node/relationship creations through Cypher, the full API and the stub API, property writes (API, column-only, Cypher SET), label additions, early deletions, compact_adjacency / finish_bulk_load, committed transactions (version bumps) and hierarchy index declarations; property values from the boundary generator or from a 'safe' generator (knob). The graph is exported through a simulated writer and imported into an empty store through a simulated reader under one of three stream configurations (clean / unusual / erroring). Non-trivial = the graph has >=2 nodes and >=1 relationship and the export and import both ran. Distinct = hash of the sequence of (op kind, route) plus the stream configuration."
+        "history = PRNG-generated sequence (<=30 ops; one run in eight additionally starts with bulk events creating >64 / >128 / >192 relationships, optionally >64 nodes, and a bulk deletion among those relationships, so ids cross 64-id boundaries and have gaps) of node/relationship creations through Cypher, the full API and the stub API, property writes (API, column-only, Cypher SET), label additions, early deletions, compact_adjacency / finish_bulk_load, committed transactions (version bumps) and hierarchy index declarations; property values from the boundary generator or from a 'safe' generator (knob). The graph is exported through a simulated writer and imported into an empty store through a simulated reader under one of three stream configurations (clean / unusual / erroring). Non-trivial = the graph has >=2 nodes and >=1 relationship and the export and import both ran. Distinct = hash of the sequence of (op kind, route) plus the stream configuration."
     }
     fn real_components(&self) -> Vec<&'static str> {
         vec![
@@ -132,7 +137,7 @@ impl Scenario for C12 {
         ]
     }
     fn required_probes(&self, _tier: Tier) -> Vec<&'static str> {
-        vec!["cfg_clean", "cfg_unusual", "cfg_erroring", "multi_version_node", "mixed_tiers", "cypher_built", "hierarchy_declared", "strict_equal_clean", "strict_equal_unusual", "export_failed_cleanly", "import_failed_cleanly", "short_read", "interrupted_read", "short_write", "interrupted_write"]
+        vec!["cfg_clean", "cfg_unusual", "cfg_erroring", "multi_version_node", "mixed_tiers", "cypher_built", "hierarchy_declared", "strict_equal_clean", "strict_equal_unusual", "export_failed_cleanly", "import_failed_cleanly", "short_read", "interrupted_read", "short_write", "interrupted_write", "rel_ids_over_64", "rel_ids_over_128", "rel_ids_over_64_with_gaps", "node_ids_over_64"]
     }
     fn generate(&self, s: &mut Streams, _run_index: u64, _tier: Tier) -> Case {
         let mut case = Case::new("C12");
@@ -168,6 +173,26 @@ impl Scenario for C12 {
         case.knobs.insert("w_dec".into(), json!((0..16).map(|_| f.below(1 << 20)).collect::<Vec<_>>()));
         case.knobs.insert("r_dec".into(), json!((0..16).map(|_| f.below(1 << 20)).collect::<Vec<_>>()));
         case.events = gen_history(&mut s.workload, &cfg);
+        // size class: one run in eight builds a graph with more than 64 / 128 / 192
+        // relationships (bulk events through the store API) and deletes some of them again,
+        // so relationship ids cross 64-id word boundaries and the ids of the survivors have
+        // gaps; the rest of the history then runs on top of that graph
+        let words = if s.knobs.chance(1, 8) { [1, 1, 2, 2, 3][s.knobs.usize_below(5)] } else { 0 };
+        case.knobs.insert("size_words".into(), json!(words));
+        if words > 0 {
+            let r = &mut s.workload;
+            let (bulk, del) = gen_bulk(r, words);
+            // after the first node (the history starts with 1-3 node creations)
+            let at = 1.min(case.events.len());
+            let n = bulk.len();
+            for (i, e) in bulk.into_iter().enumerate() {
+                case.events.insert(at + i, e);
+            }
+            // the bulk deletion right after the bulk creation or a few events later
+            let later = if r.chance(1, 2) { 0 } else { r.usize_below(5) };
+            let pos = (at + n + later).min(case.events.len());
+            case.events.insert(pos, del);
+        }
         case
     }
     fn shrink_event(&self, ev: &Value) -> Vec<Value> {
@@ -208,6 +233,23 @@ impl Scenario for C12 {
         }
         o.probe(&format!("cfg_{streams}"));
         let d0 = dump(orig);
+        {
+            // how far the relationship / node id spaces reach, and whether they have gaps
+            let max_eid = d0.edges.keys().next_back().cloned().unwrap_or(0);
+            let max_nid = d0.nodes.keys().next_back().cloned().unwrap_or(0);
+            if max_eid > 64 {
+                o.probe("rel_ids_over_64");
+            }
+            if max_eid > 128 {
+                o.probe("rel_ids_over_128");
+            }
+            if max_eid > 64 && (d0.edges.len() as u64) < max_eid {
+                o.probe("rel_ids_over_64_with_gaps");
+            }
+            if max_nid > 64 {
+                o.probe("node_ids_over_64");
+            }
+        }
         o.nontrivial = d0.nodes.len() >= 2 && !d0.edges.is_empty();
         o.class_key = hash_str(&format!("{}|{streams}", parts.join(",")));
         let orig_canon = d0.canonical();
